@@ -220,15 +220,20 @@ Proof.
   - exact Hv.
 Qed.
 
-(** Tn boundary: the root finder returns a zero of the shooting function => the shock
-    temperature of the entropy-conserving matching at the returned velocity is exactly Tn *)
-Hypothesis rootDiff_zero : forall a b, fst (diff o (rootDiff o a b)) == 0.
+(** Tn boundary: on a bracket with a sign change the root finder returns a point where the
+    shooting function is small (scipy brentq contract; the harness measures tol on the
+    recorded run) => at an interior result the shock temperature of the entropy-conserving
+    matching differs from Tn by at most tol *)
+Variable tol : Q.
+Hypothesis rootDiff_small : forall a b, a <= b -> fst (diff o b) <= 0 -> 0 <= fst (diff o a) ->
+  Qabs (fst (diff o (rootDiff o a b))) <= tol.
 
 Lemma interior_reaches_Tn v : findvwLTE epsJ epsS o vMin vJ csTn = Interior v ->
-  fst (diff o v) == 0.
+  forall vmax, vmax_of epsJ epsS o vJ csTn = Some vmax -> vMin <= vmax ->
+  Qabs (fst (diff o v)) <= tol.
 Proof.
-  intro H. destruct (interior_sound _ _ _ _ _ _ v H) as (vmax & _ & _ & _ & _ & ->).
-  apply rootDiff_zero.
+  intros H vmax E Hle. destruct (interior_sound _ _ _ _ _ _ v H) as (vm' & E' & H1 & _ & H3 & ->).
+  rewrite E in E'. inversion E'; subst. apply rootDiff_small; assumption.
 Qed.
 End Bridge.
 
